@@ -134,7 +134,12 @@ boost::optional<H5Group> BlockHDF5::findEntityGroup(const nix::Identity &ident) 
 
 std::string BlockHDF5::resolveEntityId(const nix::Identity &ident) const {
     if (!ident.id().empty()) {
-        return ident.id();
+        // a key that is shaped like an id can still be the name of an entity
+        // (names may look like UUIDs), only then it has to be looked up
+        boost::optional<H5Group> p = groupForObjectType(ident.type());
+        if (!ident.name().empty() || !p || !p->hasObject(ident.id())) {
+            return ident.id();
+        }
     }
 
     boost::optional<H5Group> g = findEntityGroup(ident);
